@@ -428,8 +428,10 @@ def main(mod, argv):
         cov.update(extra(merged))
     ev = dict(property_id=prop, tier=args.tier, seed=seed, level=mod.LEVEL, coverage=cov,
               assumptions=list(getattr(mod, 'ASSUMPTIONS', [])), wall_s=round(wall, 2), violations=len(violations))
-    os.makedirs(os.path.join(ROOT, 'evidence'), exist_ok=True)
-    with open(os.path.join(ROOT, 'evidence', prop + '.json'), 'w') as f:
+    # evidence describes /repo only: a run against a scratch source tree (VERIF_NUTILS_SRC, mutation testing) or of a single sub-check writes under out/
+    evdir = os.path.join(ROOT, 'evidence') if not os.environ.get('VERIF_NUTILS_SRC') and not args.sub else os.path.join(ROOT, 'out', prop)
+    os.makedirs(evdir, exist_ok=True)
+    with open(os.path.join(evdir, prop + ('.json' if evdir.endswith('evidence') else '-evidence-scratch.json')), 'w') as f:
         json.dump(ev, f, indent=1, sort_keys=True)
     print(f'{prop} tier={args.tier} seed={seed} evaluations={merged.evaluations} distinct_nontrivial={len(merged.nontrivial)} '
           f'known_hits={sum(merged.known.values())} discards={sum(merged.discards.values())} skipped={merged.skipped_budget} '
